@@ -69,6 +69,15 @@ class DaemonLayer:
                 fr = re.findall(r'in (\w+) /[^\n]*src/', sim['stderr'])
                 V.append(dict(sig='C20 memory still allocated and unreachable at exit (LeakSanitizer): ' + ' < '.join(fr[1:4]), at=len(sim['ops']) - 1, detail=sim['stderr'][sim['stderr'].index('LeakSanitizer'):][:1500]))
             st['C20 runs ended by teardown under LeakSanitizer'] += 1
+            # main() itself runs in the harness: the dispositions it installed before serving, and what it returned after the signal
+            sig = [l for l in sim['dump'] if l.startswith('I sig ')]
+            if sig != ['I sig TERM handler INT handler HUP handler PIPE ign']:
+                V.append(dict(sig='C20 signal dispositions installed by main() differ: %r' % sig, at=0))
+            if td is not None and 'DIED' not in td:
+                ex = [l for l in td if l.startswith('I exit ')]
+                if ex != ['I exit 0 signalled 1']:
+                    V.append(dict(sig='C20 a termination signal did not end the daemon with status 0: %r' % ex, at=len(sim['ops']) - 1))
+                else: st['C20 SIGTERM while sleeping in poll: exit status 0'] += 1
         for v in V:
             at = v.get('at', len(sim['ops']) - 1)
             v['replay'] = dict(layer=self.name, seed=seed, N=N, profile=profile, ops=sim['ops'][:at + 1] if at < 600 else None, at=at)
@@ -151,7 +160,7 @@ def D(*a, **k):
 PROPS['C01'] = dict(layers=[D(P.p_c01, P.p_c06_toolong, profile=dict(faults=0.4, longline=0.002))], planned=['C01_validated (alias expansion)', 'C01_history_free at daemon level'])
 PROPS['C02'] = dict(layers=[D(P.p_c02_c03, P.p_c02_retry, P.p_c02_wire, profile=dict(faults=0.5))], planned=['C02_sound end-to-end (102 ⇒ every target commanded and answered ok)', 'C02_cli'])
 PROPS['C03'] = dict(layers=[D(P.p_c02_c03, P.p_c03_justified, profile=dict(faults=0.5))], planned=['C03_justified over whole runs', 'C03_no_memory'])
-PROPS['C04'] = dict(layers=[D(P.p_c04, P.p_c04_quit, P.p_c04_deadline, P.p_c15)], planned=['C04_one_reply', 'C04_no_wedge', 'C04_tenure', 'C04_bound_partial'])
+PROPS['C04'] = dict(layers=[D(P.p_c04, P.p_c04_quit, P.p_c04_deadline, P.p_c04_xpoll, P.p_c15, profile=dict(hup=0.04))], planned=['C04_one_reply', 'C04_no_wedge', 'C04_tenure', 'C04_bound_partial'])
 PROPS['C06'] = dict(layers=[D(P.p_c04, P.p_c15, P.p_c06_served, P.p_f23, profile=dict(fatal=0.03, faults=1.5, maxclients=6), deaths=client_deaths), D(P.p_c04, P.p_c15, P.p_c06_toolong, profile=dict(fatal=0.02, faults=0.1, quit=0.003, maxclients=3, calm=0.05, longline=0.003), deaths=client_deaths, quick=(8, 2500), thorough=(128, 6000))], planned=['C06_total over lines >= CP_LINEMAX (203)', 'C06_reap'])
 PROPS['C07'] = dict(layers=[D(P.p_c20, profile=dict(garbage=0.08, pF6=0.03, calm=0.25, flood=0.004), deaths=device_deaths)], planned=['C07_no_abort assembled over whole runs'])
 PROPS['C08'] = dict(layers=[D(P.p_c08, P.p_c01, profile=dict(faults=0.5))], planned=['composition of the refinement over postPoll sequences with reconnects'])
